@@ -235,6 +235,8 @@ async fn run_history(n: usize, crash_node: usize, prefix: &[Op], ops: &[Op], inf
             if head < m.max && o != x {
                 m.max = head;
                 m.held.retain(|v| *v <= head);
+                // ... and whatever apply trigger they once owed went with them: they are fetched again
+                w.expected_triggers.retain(|(nd, org, v)| !(*nd == x && *org == o && *v > head));
             }
         }
     }
